@@ -233,6 +233,17 @@ def _small_c09(args):
                                    hist=x_arith.HIST[idx % len(x_arith.HIST)]))
     lo, hi = rng_of(tx)
     ly, hy = rng_of(ty)
+    # divisor arrays of ONE class only: positive powers of two (not all equal), negative values only, one repeated value
+    xs_all = list(range(lo, hi + 1))
+    pows = [1 << j for j in range(0, 8) if (1 << j) <= hy]
+    classes = [pows, [c for c in range(ly, 0)], [hy], [-(1 << j) for j in range(0, 8) if -(1 << j) >= ly]]
+    for cl in classes:
+        cl = [c for c in cl if c != 0 and ly <= c <= hy]            # (non-zero divisors of the format)
+        if len(cl) >= 1:
+            dv = [cl[i % len(cl)] for i in range(len(xs_all))]
+            for method in ('raw', 'repr'):
+                out.append(x_arith.observe_div(fx, np, [pid], tx, ty, xs_all, dv, method=method, rnd=['trunc', 'around', 'floor'][(idx + len(out)) % 3],
+                                               route=['operator', 'function', 'numpy'][(idx + len(out)) % 3]))
     for a in sorted({lo, hi}):
         for b in sorted({ly, hy, 1, -1 if ty[0] else 1} - {0}):
             if ly <= b <= hy:
